@@ -23,7 +23,7 @@ def search(ctx):
 
 
 def run(ctx):
-    ctx.extract(["keywords", "flattenuse", "regpasses", "itemnames", "decltype"])
+    ctx.extract(["keywords", "flattenuse", "regpasses", "itemnames", "decltype", "declrtype"])
     # three theorem modules, so that a change to the macro breaks exactly the T5 obligations, a change to the pass
     # structure of Rt::add exactly those of C18Passes and a change to the lexer's keyword table the others
     parts = []
@@ -56,7 +56,9 @@ def run(ctx):
         ctx.coverage["axioms"] = {k: v for p in parts for k, v in (p["axioms"] or {}).items()}
     # the decision of Rt::declare_type (its guards over the registered entries, regenerated): "a Rust type is registered
     # twice" is decided on the Rust type alone, whatever the identifier and the scope
-    ok6 = prove(PROPS_DECLTYPE, ["RotoV.Model.RegistrationDeclType"])
+    # + TypeChecker::declare_runtime_type as facts (target declrtype) and the invariant of the two indexes of
+    # Vec<RuntimeType> established for every reachable runtime (Lemmas/RegistrationTypeIndex.lean)
+    ok6 = prove(PROPS_DECLTYPE, ["RotoV.Model.RegistrationDeclType", "RotoV.Lemmas.RegistrationTypeIndex"])
     ok2 = ok2 and ok3 and ok4 and ok5 and ok6
     if not (ok1 and ok2):
         ctx.lake_build(["rotov-driver"])
@@ -74,8 +76,12 @@ def run(ctx):
         "declare_constant / check_name, the scope graph's insert_*) are tied by (b) only; the quantifier over "
         "libraries is sampled there",
         "Rt::declare_type: its guards over the entries of self.types are regenerated (target decltype) as Boolean functions "
-        "of (same Rust type, same identifier, same scope) and proved to be the model's two early exits; that the scan is "
-        "over ALL of self.types, and declare_runtime_type itself, are tied by the differential run only",
+        "of (same Rust type, same identifier, same scope) and proved to be the model's two early exits on every runtime a "
+        "history of adds can reach (the invariant that ties the model's two indexes is proved, not assumed); the translator "
+        "accepts only scans whose receiver is `self.types.iter()`; TypeChecker::declare_runtime_type is regenerated as facts "
+        "(target declrtype: the primitive shortcut looks in the registration's own scope, non-recursively, applies to "
+        "Primitive | List, declares nothing; otherwise insert_type under the own name, clash propagated) = what the model's "
+        "declareType embodies; ScopeGraph::insert_type / insert_declaration / resolve_name are tied by the differential run only",
         "script-side name lookup is modelled for a fresh script at top level (root declarations, then root imports)",
         "library!: flatten_use_tree is regenerated from macros/src/lib.rs by a transliterator for list-functional Rust "
         "(extract/src/targets/c18.rs, mod listfn) and proved equal to the specification for all use trees; syn's parse "
